@@ -19,6 +19,14 @@ TESTS = {
                                    functions=['tarpc/src/client.rs::RequestDispatch (through the public API)', 'tarpc/src/client/in_flight_requests.rs::complete_request (through the public API)'],
                                    bound='3 concurrent calls; all 6 answer orders; one unsolicited id derived from a live id by 6 boundary transformations at every position; optional duplicate (660 runs)',
                                    why='replay search: source of concrete failing inputs when the deductive check of the client table is undecided (e.g. a changed data representation) or fails'),
+    'complete_all_bounded': dict(inrepo=True, file='client_table', fn='verif_native_complete_all_requests_bounded',
+                                 functions=['tarpc/src/client/in_flight_requests.rs::complete_all_requests (+ its consuming loop)'],
+                                 bound='every table of <= 3 entries over ids {0,1,2,u64::MAX} (15 tables)',
+                                 why='stand-in for the R11 ASSUMED contract of unit client (impl Iterator over a draining map with a closure: outside Verus; DelayQueue: Kani ICE)'),
+    'drop_aborts_bounded': dict(inrepo=True, file='server_table', fn='verif_native_drop_aborts_all_bounded',
+                                functions=['tarpc/src/server/in_flight_requests.rs::<InFlightRequests as Drop>::drop'],
+                                bound='every table of <= 3 entries (8 tables)',
+                                why='`values().for_each(|r| r.abort_handle.abort())`: iterator + closure outside Verus; DelayQueue: Kani ICE'),
     'retry_bounded': dict(file='retry_bounded', fn='retry_exhaustive_up_to_max_attempts',
                           functions=['tarpc/src/client/stub/retry.rs::Retry::call'],
                           bound='exhaustive over all policy-decision and ok/err result sequences of up to 5 attempts',
@@ -39,7 +47,7 @@ def run_tests(ids, timeout=1500):
         th = kani_run._tree_hash()
         for tid in ids:
             t = TESTS[tid]
-            src = open(os.path.join(VERIF, 'native', 'tests', t['file'] + '.rs')).read()
+            src = open(os.path.join(VERIF, 'native_inrepo' if t.get('inrepo') else os.path.join('native', 'tests'), t['file'] + '.rs')).read()
             cpath = os.path.join(BUILD, 'cache', 'native-%s-%s.json' % (tid, hashlib.sha256((th + src).encode()).hexdigest()[:24]))
             os.makedirs(os.path.dirname(cpath), exist_ok=True)
             if os.path.exists(cpath):
@@ -47,8 +55,14 @@ def run_tests(ids, timeout=1500):
                 rec['cache_hit'] = True
                 out.append(rec)
                 continue
-            cmd = ['cargo', 'test', '--offline', '--target-dir', os.path.join(BUILD, 'native-target'), '--test', t['file'], t['fn'], '--', '--nocapture', '--exact']
-            env = dict(os.environ, CARGO_NET_OFFLINE='true')
+            if t.get('inrepo'):
+                cmd = ['cargo', 'test', '--offline', '--features', 'full', '--lib', '--target-dir', os.path.join(BUILD, 'inrepo-target'), t['fn'], '--', '--nocapture']
+                env = dict(os.environ, CARGO_NET_OFFLINE='true', RUSTFLAGS='--cfg tarpc_verif')
+                cwd = '/repo/tarpc'
+            else:
+                cmd = ['cargo', 'test', '--offline', '--target-dir', os.path.join(BUILD, 'native-target'), '--test', t['file'], t['fn'], '--', '--nocapture', '--exact']
+                env = dict(os.environ, CARGO_NET_OFFLINE='true')
+                cwd = os.path.join(VERIF, 'native')
             # keep the lock file in sync with /repo's so that resolution stays offline
             try:
                 lk = open('/repo/Cargo.lock').read()
@@ -57,7 +71,7 @@ def run_tests(ids, timeout=1500):
                 pass
             t0 = time.time()
             try:
-                p = subprocess.run(cmd, cwd=os.path.join(VERIF, 'native'), capture_output=True, text=True, timeout=timeout, env=env)
+                p = subprocess.run(cmd, cwd=cwd, capture_output=True, text=True, timeout=timeout, env=env)
             except subprocess.TimeoutExpired:
                 raise NativeUndecided('native stand-in %s timed out' % tid)
             txt = p.stdout + p.stderr
@@ -66,7 +80,7 @@ def run_tests(ids, timeout=1500):
             failed = bool(re.search(r'test result: FAILED', txt))
             if not passed and not failed:
                 raise NativeUndecided('native stand-in %s did not build or run: %s' % (tid, txt[-600:].replace('\n', ' | ')))
-            rec = dict(id=tid, cmd='(cd /verif/native && %s)' % ' '.join(cmd), passed=passed, evaluations=int(m.group(1)) if m else 0,
+            rec = dict(id=tid, cmd='(cd %s && %s%s)' % (cwd, 'RUSTFLAGS="--cfg tarpc_verif" ' if t.get('inrepo') else '', ' '.join(cmd)), passed=passed, evaluations=int(m.group(1)) if m else 0,
                        functions=t['functions'], bound=t['bound'], why=t['why'], wall_s=time.time() - t0, output_tail=txt[-2500:])
             json.dump(rec, open(cpath, 'w'))
             out.append(rec)
